@@ -79,3 +79,25 @@ Proof. intros p p' t ms t'. exact (C16_holds p p' t (Decset ms) t'). Qed.
 Check C08_alt_entry_blank_pen : forall p p' t ms t', TInv t -> execute t (Decset ms) = Ok t' -> holds_C16 (mkVt p t) (Decset ms) (mkVt p' t') = true.
 Print Assumptions C08_alt_entry_blank_pen.
 
+From Avt Require Import Model.Parser Proofs.ParserInv Proofs.ParserSim Proofs.ParamsWritten Proofs.ParamsPrefixed.
+(** Proofs/ParamsPrefixed.v (statement audit) *)
+Local Open Scope N_scope.
+(** the SGR branch of the executable statement holds_C08 (pen = fold of the decoded parameters, decoding = grammar), for every parser step that emits an SGR *)
+Theorem C08_sgr_statement_pinned : forall p c p' t ops t', PInv p -> feedM p c = Ok (p', Some (Sgr ops)) -> execute t (Sgr ops) = Ok t' -> holds_C08 (mkVt p t) (Sgr ops) (mkVt p' t') = true.
+Proof. exact C08_sgr_statement. Qed.
+Check C08_sgr_statement_pinned : forall p c p' t ops t', PInv p -> feedM p c = Ok (p', Some (Sgr ops)) -> execute t (Sgr ops) = Ok t' -> holds_C08 (mkVt p t) (Sgr ops) (mkVt p' t') = true.
+Print Assumptions C08_sgr_statement_pinned.
+
+(** the grammar on the TEXT: any parameter text within the capacity followed by `m`, 7- or 8-bit CSI, from any parser state, emits Sgr of the specification's reading of the values as written *)
+Theorem C08_sgr_from_text : forall (t : ptext) p, PInv p -> wf_text t -> hd 0 (render t) <> 58 -> runP p (155 :: render t ++ [109]) = Ok (mkParser Ground (written_block t) (written_cur t) None, [Sgr (spec_sgr (S (length (text_parts t))) (text_parts t))]) /\ runP p (27 :: 91 :: render t ++ [109]) = Ok (mkParser Ground (written_block t) (written_cur t) None, [Sgr (spec_sgr (S (length (text_parts t))) (text_parts t))]).
+Proof. exact C08_sgr_text_grammar. Qed.
+Check C08_sgr_from_text : forall (t : ptext) p, PInv p -> wf_text t -> hd 0 (render t) <> 58 -> runP p (155 :: render t ++ [109]) = Ok (mkParser Ground (written_block t) (written_cur t) None, [Sgr (spec_sgr (S (length (text_parts t))) (text_parts t))]) /\ runP p (27 :: 91 :: render t ++ [109]) = Ok (mkParser Ground (written_block t) (written_cur t) None, [Sgr (spec_sgr (S (length (text_parts t))) (text_parts t))]).
+Print Assumptions C08_sgr_from_text.
+
+(** 38;2;R;G;B = 38:2:R:G:B = 38:2::R:G:B *)
+Theorem C08_rgb_spellings : forall (r g b : list N) p, PInv p -> numeral r -> numeral g -> numeral b -> digit_value r < 256 -> digit_value g < 256 -> digit_value b < 256 -> let ops := [Sgr [SetForegroundColor (RGB (digit_value r) (digit_value g) (digit_value b))]] in run_emit p (155 :: render (rgb_semicolons r g b) ++ [109]) = ops /\ run_emit p (155 :: render (rgb_colons r g b) ++ [109]) = ops /\ run_emit p (155 :: render (rgb_colons_cs r g b) ++ [109]) = ops /\ run_emit p (27 :: 91 :: render (rgb_semicolons r g b) ++ [109]) = ops /\ run_emit p (27 :: 91 :: render (rgb_colons r g b) ++ [109]) = ops /\ run_emit p (27 :: 91 :: render (rgb_colons_cs r g b) ++ [109]) = ops.
+Proof. exact C08_sgr_rgb_spellings. Qed.
+Check C08_rgb_spellings : forall (r g b : list N) p, PInv p -> numeral r -> numeral g -> numeral b -> digit_value r < 256 -> digit_value g < 256 -> digit_value b < 256 -> let ops := [Sgr [SetForegroundColor (RGB (digit_value r) (digit_value g) (digit_value b))]] in run_emit p (155 :: render (rgb_semicolons r g b) ++ [109]) = ops /\ run_emit p (155 :: render (rgb_colons r g b) ++ [109]) = ops /\ run_emit p (155 :: render (rgb_colons_cs r g b) ++ [109]) = ops /\ run_emit p (27 :: 91 :: render (rgb_semicolons r g b) ++ [109]) = ops /\ run_emit p (27 :: 91 :: render (rgb_colons r g b) ++ [109]) = ops /\ run_emit p (27 :: 91 :: render (rgb_colons_cs r g b) ++ [109]) = ops.
+Print Assumptions C08_rgb_spellings.
+
+Local Close Scope N_scope.
